@@ -1362,7 +1362,7 @@ Notes:
 
     if len(params)  >  _len:  # if Y-values are appended to params
       params, values  =  params[:_len], params[_len:]
-      self.values = list(values) + self.values[len(values):]
+      self.values = list(values) + list(self.values[len(values):])
 
     pm = unflatten(params, pts)
     zo = pm.count([])
